@@ -171,6 +171,8 @@ def judge_readback(ctx, stage1, impl1):
     ctx.evaluations += len(pcs)
     for pc in pcs:
         c = pc.meta['parent']
+        if res[pc.id].get('status') == 'notrun':       # black-box fallback: the parser cannot be driven from outside
+            continue
         got = nodes_of(res[pc.id])
         want = expected_nodes(c)
         if got != want:
